@@ -63,7 +63,7 @@ func deepTree(r *Rand) *GT {
 func init() {
 	register(&PropDef{
 		ID:   "C07",
-		Rule: "one shared compiled Expr (random trees incl. expressions with operand stacks deeper than 16, with and without event reporting) is used by 8..32 goroutines at once, each making 50..400 calls of Eval / TryEval / Dump / DumpTable with its own context and differing bindings (successes and failures); every result (value, error, ordered effects) is compared with the result of the same call made in isolation before, the exported program is compared before/after, and the whole run executes under the Go race detector (the harness re-executes itself built with -race); sequential histories with differing bindings are run first; non-trivial = every shared expression; distinct = distinct (source, config)",
+		Rule: "one shared compiled Expr (random trees incl. expressions with operand stacks deeper than 16, with and without event reporting) is used by 8..32 goroutines at once, each making 50..400 calls of Eval / TryEval / Dump / DumpTable with its own context and differing bindings (successes and failures); every result (value, error, ordered effects) is compared with the result of the same call made in isolation before, the exported program is compared before/after, and the whole run executes under the Go race detector (the harness re-executes itself built with -race); sequential histories with differing bindings are run first; plus the one-shot Eval(source, values) helper called sequentially and from 16 goroutines with per-call values and operator closures under the same names; non-trivial = every shared expression; distinct = distinct (source, config)",
 		Assumptions: []string{"data races are a property of the Go memory model: they are detected by the race detector on the schedules that occurred, not proved absent", "event mode: every call in a run shares the Expr's EventChan, drained by one consumer (events are not attributed to calls)"},
 		Gen: genC07,
 	})
@@ -261,7 +261,7 @@ func (a confSnap) equal(b confSnap) bool {
 func init() {
 	register(&PropDef{
 		ID:   "C08",
-		Rule: "histories of 5..40 operations over 2..4 shared Configs (constants incl. slices, variables, registered operators, costs, stateless lists built with spare capacity, option switches): Compile of random sources with every directive combination, CopyConfig, ExtendConf, mutation of the copies (map entries, slice elements, appends) and of their sources; after every Compile the Config contents are compared with a deep snapshot taken before; a copy and its source must never see each other's mutations; compiling the same (config contents, source) again, after other compilations, in permuted order and concurrently (under the race detector) must give the same Dump and DumpTable; non-trivial = every history; distinct = distinct histories",
+		Rule: "histories of 5..40 operations over 2..4 shared Configs (constants incl. slices, variables, registered operators, costs, stateless lists built with spare capacity, option switches): Compile of random sources with every directive combination, CopyConfig, ExtendConf, mutation of the copies (map entries, slice elements, appends) and of their sources; after every Compile the Config contents are compared with a deep snapshot taken before; a copy and its source must never see each other's mutations; compiling the same (config contents, source) again, after other compilations, in permuted order and concurrently (under the race detector) must give the same Dump and DumpTable; nil Configs (Compile(nil, ...) before and after nil-Config compilations that carry directives, compared with an empty Config; two CopyConfig(nil) results mutated independently); non-trivial = every history; distinct = distinct histories",
 		Assumptions: []string{"data races are detected by the race detector on the schedules that occurred, not proved absent"},
 		Gen: genC08,
 	})
